@@ -38,7 +38,8 @@ def generate(seed, tier):
     hiccups = []
     if mode == 'relay':
         for _ in range(rng.randint(0, 3)):
-            hiccups.append({'kind': rng.choice(['child_first', 'duplicate', 'other_peer']), 'at': rng.randrange(1, 6)})
+            hiccups.append({'kind': rng.choice(['child_first', 'duplicate', 'other_peer', 'competitor_first', 'competitor_first']),
+                            'at': rng.randrange(1, 6)})
     return {'config': {'mode': mode, 'hiccups': hiccups, 'relay_sample': [rng.randrange(327) for _ in range(4)],
                        'variant': rng.randrange(1000), 'profile': {'lat_max': rng.choice([5, 50, 200])}},
             'ops': [{'op': 'serve', 'h': h} for h in order] + [{'op': 'checkpoints'}]}
@@ -142,13 +143,35 @@ def run_real_chain(script, res, trace):
                 for hc in cfg.get('hiccups', []):
                     if hc['at'] == h and hc['kind'] == 'child_first' and h + 1 in blocks:
                         plan.append((h + 1, 0, 'orphan'))
+                for hc in cfg.get('hiccups', []):
+                    if hc['at'] == h and hc['kind'] == 'competitor_first' and h <= 4:
+                        plan.append((h, 1, 'competitor'))
                 plan.append((h, 0, 'in-order'))
                 for hc in cfg.get('hiccups', []):
                     if hc['at'] == h and hc['kind'] == 'duplicate':
                         plan.append((h, 1, 'duplicate'))
+            competitors = set()
             for h, peer, why in plan:
                 conns = [c for c in bots[peer].conns if not c.closed]
                 if not conns:
+                    continue
+                if why == 'competitor':
+                    # a sibling of real block h reaches the node first (bulk route: installed without in-chain validation, it
+                    # states the trivial target); it is the head at that height when the real blocks h and h+1 arrive
+                    view = CoinState.zero()
+                    for x in range(1, h):
+                        view = view.add_block_no_validation(blocks[x])
+                    par = view.head()
+                    from skepticoin.datatypes import Transaction as _T, Input as _I, Output as _O, OutputReference as _R
+                    from skepticoin.signing import CoinbaseData as _CD
+                    cb = _T([_I(_R(b'\x00' * 32, 0), _CD(h, b'rival'))], [_O(10 * 100_000_000, W.key(h % 12).pk)])
+                    rival = W.seal(view, h, par.hash(), par.timestamp + 1, W.TRIVIAL_TARGET, [cb], fake_scrypt=b'rival%d' % h)
+                    conns[-1].send(M.DataMessage(M.DATA_BLOCK, rival), in_response_to=9)
+                    k.run(k.now + 2500)
+                    if rival.hash() in node.lp.chain_manager.coinstate.block_by_hash:
+                        competitors.add(rival.hash())
+                        res.bump('probe:competitor_installed_before_real_block')
+                    trace.add('relay', h, why)
                     continue
                 conns[-1].send(M.DataMessage(M.DATA_BLOCK, blocks[h]))
                 k.run(k.now + 2500)
@@ -187,7 +210,7 @@ def run_real_chain(script, res, trace):
                 return
         if relay:
             rows = {r[0] for r in node.store.sql('select block_hash from chain')}
-            if rows != {g.hash()} | {b.hash() for b in blocks.values()}:
+            if rows != {g.hash()} | {b.hash() for b in blocks.values()} | competitors:
                 res.violate(PROP, 'C18/real-chain-not-stored', 'store rows differ from the recorded chain')
                 return
             # evidence recomputed by the repo with the real scrypt equals the recorded evidence
@@ -386,6 +409,72 @@ def run_checkpoints(script, res, trace):
                 return
             if {r[0] for r in node.store.sql('select block_hash from chain')} != rows0:
                 res.violate(PROP, 'C18/store-changed-by-rejected-checkpoint-block', 'height %d' % h)
+                return
+        finally:
+            try:
+                node.store.close()
+            except Exception:
+                pass
+            sh.uninstall()
+    # the bulk-download route compares checkpoints at heights divisible by 10,000: an alternative branch that is NOT the head
+    # while it is being downloaded (the node's head is higher, on another trusted tip) must not get past such a height either
+    import immutables as _imm
+    tens = [h for h in heights if h % 10_000 == 0]
+    for idx in script['config'].get('relay_sample', [])[:1]:
+        if not tens:
+            break
+        H = tens[idx % len(tens)]
+        csA, TA, _f = W.hollow_base_far(H + 3, W.TRIVIAL_TARGET, salt=1 + v)
+        csB, TB, _f = W.hollow_base_far(H - 2, W.TRIVIAL_TARGET, n_outputs=8, value_each=4_000_000_000, salt=2000 + v)
+        ta, tb = TA.hash(), TB.hash()
+        from skepticoin.coinstate import CoinState as _CS
+        cs = _CS(block_by_hash=csA.block_by_hash.set(tb, TB),
+                 unspent_transaction_outs_by_hash=csA.unspent_transaction_outs_by_hash.set(tb, csB.unspent_transaction_outs_by_hash[tb]),
+                 block_by_height_by_hash=csA.block_by_height_by_hash.set(tb, csB.block_by_height_by_hash[tb]),
+                 heads=csA.heads.set(tb, TB), current_chain_hash=ta)
+        k = Kernel(script.get('seed', 0) + H + 1, script['config'].get('profile'))
+        sh = Shims(k)
+        sh.install()
+        try:
+            node = SimNode(k, 'N', '10.0.0.1')
+            node.skew_ms = int((W.BASE_TS + 1000 - 1_700_100_000) * 1000)
+            bot = Bot(k, 'bot', '10.0.1.1', {'my_port': 0})
+            node.boot(cs, peers=[])
+            c = bot.connect(('10.0.0.1', 2412))
+            k.run(k.now + 2500)
+            rows0 = {r[0] for r in node.store.sql('select block_hash from chain')}
+            prev, alt = tb, []
+            for j, hh in enumerate(range(H - 1, H + 6)):
+                b_ = block_at(hh, prev, W.BASE_TS + 5 + j, 5 + j, b'alt-bulk')
+                alt.append(b_)
+                prev = b_.hash()
+            for b_ in alt:
+                live = [x for x in bot.conns if not x.closed and x.hello_in]
+                if not live:
+                    live = [bot.connect(('10.0.0.1', 2412))]
+                    k.run(k.now + 2500)
+                    live = [x for x in bot.conns if not x.closed and x.hello_in]
+                    if not live:
+                        break
+                live[-1].send(M.DataMessage(M.DATA_BLOCK, b_), in_response_to=9)
+                k.run(k.now + 1500)
+            k.run(k.now + 2000)
+            res.bump('checkpoint_bulk_side_branch_runs')
+            if node.loop_error:
+                res.violate(PROP, 'C18/exception-left-event-loop', '%s: %s' % node.loop_error[:2])
+                return
+            state = node.lp.chain_manager.coinstate
+            passed = [b_.height for b_ in alt if b_.height >= H and b_.hash() in state.block_by_hash]
+            if passed:
+                res.violate(PROP, 'C18/wrong-block-accepted-at-checkpoint',
+                            'bulk download of a side branch (the head stays on another tip at height %d): blocks at heights %s of an '
+                            'alternative history with a foreign id at checkpointed height %d are in chain state' % (H + 3, passed, H))
+                return
+            if state.head().height > H + 3 or state.current_chain_hash != ta:
+                res.violate(PROP, 'C18/wrong-block-accepted-at-checkpoint', 'the node moved to a history that passes checkpoint %d with a foreign id' % H)
+                return
+            if {r[0] for r in node.store.sql('select block_hash from chain')} - rows0:
+                res.violate(PROP, 'C18/store-changed-by-rejected-checkpoint-block', 'bulk side branch at %d' % H)
                 return
         finally:
             try:
